@@ -3,7 +3,6 @@ package webdav
 import (
 	"fmt"
 	"strconv"
-	"sort"
 	"strings"
 	"testing"
 	"time"
@@ -110,21 +109,6 @@ func c43Conflict(l *c43Lock, root string, zero bool) string {
 		return "infinite-depth-request-over-locked-descendant"
 	}
 	return ""
-}
-
-// c43Ancestors returns name and all its ancestors up to "/".
-func c43Ancestors(name string) []string {
-	out := []string{"/"}
-	if name == "/" {
-		return out
-	}
-	parts := strings.Split(strings.TrimPrefix(name, "/"), "/")
-	cur := ""
-	for _, p := range parts {
-		cur += "/" + p
-		out = append(out, cur)
-	}
-	return out
 }
 
 // collect applies expiry in the model at a call made at s.now.
@@ -238,8 +222,23 @@ func c43WB(w *vx.W, s *c43State, op c43Op) {
 	m.mu.Lock()
 	defer m.mu.Unlock()
 	nLive, nHeap := 0, 0
-	wantRef := map[string]int{}
-	rooted := map[string]bool{}
+	type refc struct {
+		name   string
+		n      int
+		rooted bool
+	}
+	var refBuf [16]refc
+	wantRef := refBuf[:0]
+	addRef := func(name string, rooted bool) {
+		for i := range wantRef {
+			if wantRef[i].name == name {
+				wantRef[i].n++
+				wantRef[i].rooted = wantRef[i].rooted || rooted
+				return
+			}
+		}
+		wantRef = append(wantRef, refc{name, 1, rooted})
+	}
 	for i, l := range s.locks {
 		n := m.byToken[l.tok]
 		if l.dead {
@@ -274,10 +273,15 @@ func c43WB(w *vx.W, s *c43State, op c43Op) {
 			w.Failf("C43/wb/byExpiry-membership", "after %v: node of t%d has byExpiryIndex=%d (heap len %d), model says in-heap=%v; %s", op, i, n.byExpiryIndex, len(m.byExpiry), inHeap, s.describe())
 			return
 		}
-		for _, a := range c43Ancestors(l.root) {
-			wantRef[a]++
+		// the lock's root and every ancestor up to "/" (independent of walkToRoot)
+		addRef(l.root, true)
+		for a := l.root; a != "/"; {
+			a = a[:strings.LastIndexByte(a, '/')]
+			if a == "" {
+				a = "/"
+			}
+			addRef(a, false)
 		}
-		rooted[l.root] = true
 	}
 	if len(m.byToken) != nLive {
 		w.Failf("C43/wb/byToken-size", "after %v: byToken has %d entries, model has %d live locks; %s", op, len(m.byToken), nLive, s.describe())
@@ -297,26 +301,22 @@ func c43WB(w *vx.W, s *c43State, op c43Op) {
 		w.Failf("C43/wb/byName-size", "after %v: byName has %d nodes, recomputation %d (%v); %s", op, len(m.byName), len(wantRef), wantRef, s.describe())
 		return
 	}
-	for name, rc := range wantRef {
+	for _, r := range wantRef {
+		name, rc := r.name, r.n
 		n := m.byName[name]
-		if n == nil || n.refCount != rc || n.details.Root != name || (n.token != "") != rooted[name] {
+		if n == nil || n.refCount != rc || n.details.Root != name || (n.token != "") != r.rooted {
 			got := "missing"
 			if n != nil {
 				got = fmt.Sprintf("refCount=%d root=%q token=%q", n.refCount, n.details.Root, n.token)
 			}
-			w.Failf("C43/wb/byName-refcount", "after %v: byName[%s] is %s, recomputation refCount=%d locked=%v; %s", op, name, got, rc, rooted[name], s.describe())
+			w.Failf("C43/wb/byName-refcount", "after %v: byName[%s] is %s, recomputation refCount=%d locked=%v; %s", op, name, got, rc, r.rooted, s.describe())
 			return
 		}
 	}
 	// mutual exclusion, on the implementation's own set of locks
-	var nodes []*memLSNode
-	for _, n := range m.byToken {
-		nodes = append(nodes, n)
-	}
-	sort.Slice(nodes, func(i, j int) bool { return nodes[i].token < nodes[j].token })
-	for i, x := range nodes {
-		for _, y := range nodes[i+1:] {
-			if c43Covers(x.details.Root, x.details.ZeroDepth, y.details.Root) || c43Covers(y.details.Root, y.details.ZeroDepth, x.details.Root) {
+	for _, x := range m.byToken {
+		for _, y := range m.byToken {
+			if x.token < y.token && (c43Covers(x.details.Root, x.details.ZeroDepth, y.details.Root) || c43Covers(y.details.Root, y.details.ZeroDepth, x.details.Root)) {
 				w.Failf("C43/exclusion/two-live-locks-cover-one-resource", "after %v: locks %q on %s (zeroDepth=%v) and %q on %s (zeroDepth=%v) are both live; %s", op,
 					x.token, x.details.Root, x.details.ZeroDepth, y.token, y.details.Root, y.details.ZeroDepth, s.describe())
 				return
@@ -635,6 +635,14 @@ func TestVerif_C43(t *testing.T) {
 		c.Assume("clock values are monotone (ticks between calls); Condition.Not and Condition.ETag are not exercised (documented as unsupported by memLS); calling a release function twice is outside the contract and not exercised; names are already slash-clean; histories are single-threaded")
 		c.Assume("error identities (ErrLocked for held/conflicting, ErrNoSuchLock for dead/unknown tokens, ErrConfirmationFailed) are checked as documented on the LockSystem interface")
 
+		c43Run(c, c43Cfg{part: "deep",
+			names:      []string{"/", "/a", "/a/b"},
+			pairNames:  []string{"/a/b"},
+			createDur:  []int{-1, 2},
+			refreshDur: []int{3},
+			ticks:      []int{1, 3},
+			maxTok:     vx.Pick(c, 2, 3), maxH: 2,
+			depth: vx.Pick(c, 10, 12)})
 		c43Run(c, c43Cfg{part: "wide",
 			names:      []string{"/", "/a", "/a/b", "/a/c", "/ab"},
 			pairNames:  []string{"/a/b", "/ab"},
@@ -643,13 +651,5 @@ func TestVerif_C43(t *testing.T) {
 			ticks:      []int{1, 3},
 			maxTok:     3, maxH: 2,
 			depth: vx.Pick(c, 4, 5)})
-		c43Run(c, c43Cfg{part: "deep",
-			names:      []string{"/", "/a", "/a/b"},
-			pairNames:  []string{"/a/b"},
-			createDur:  []int{-1, 2},
-			refreshDur: []int{3},
-			ticks:      []int{1, 3},
-			maxTok:     vx.Pick(c, 2, 3), maxH: 2,
-			depth: vx.Pick(c, 7, 9)})
 	})
 }
